@@ -482,3 +482,22 @@ V("c07-reward-helper-gate-instead-of-sign", "C07", "violation", "C07.R5", edits=
 V("c07-normalisation-global-guard", "C07", "violation", "C07.R5", edits=[("tasking/rewards/reward_base.py", "        for met in range(len(self.metrics)):\n            if metric_matrix[..., met].max() > 0.0:\n                metric_matrix[..., met] /= metric_matrix[..., met].max()\n", "        peaks = metric_matrix.reshape(-1, len(self.metrics)).max(axis=0)\n        if (peaks > 0.0).all():\n            metric_matrix /= peaks\n")])
 V("c01-revert-F17-simultaneous-events", "C01", "violation", "C01.R8", revert="d10d320")
 V("c15-n-revert-F17-leaves-c15-quiet", "C15", "pass", revert="d10d320", note="the pre-F17 shape of _applyEvents is not a C15 violation")
+
+DYI = "dynamics/__init__.py"
+V("c10-n-factory-through-helper", "C10", "pass", edits=[(DYI, "            dynamics = TwoBody(method=prop_cfg.integration_method)\n", "            dynamics = _mk2b(prop_cfg)\n"), (DYI, "def dynamicsFactory(", "def _mk2b(prop_cfg):\n    return TwoBody(method=prop_cfg.integration_method)\n\n\ndef dynamicsFactory(")])
+V("c10-factory-memoised", "C10", "violation", "C10.R4", edits=[(DYI, "            dynamics = TwoBody(method=prop_cfg.integration_method)\n", "            dynamics = _CACHE.setdefault(prop_cfg.integration_method, TwoBody(method=prop_cfg.integration_method))\n"), (DYI, "def dynamicsFactory(", "_CACHE = {}\n\n\ndef dynamicsFactory(")])
+V("c12-check-ecc-on-longitude-conversion", "C12", "violation", "C12.R3", edits=[("physics/orbits/anomaly.py", "@wrap_anomaly\ndef meanLong2TrueAnom(", "@wrap_anomaly\n@check_ecc\ndef meanLong2TrueAnom(")])
+
+# ------------------------------------------------------------------------------------ seeded changes kept under /verif/seeded
+import json as _json
+import os as _os
+
+_SEEDED = _os.path.join(_os.path.dirname(_os.path.dirname(_os.path.abspath(__file__))), "seeded")
+for _name in sorted(_os.listdir(_SEEDED)) if _os.path.isdir(_SEEDED) else []:
+    _mp = _os.path.join(_SEEDED, _name, "meta.json")
+    if not _os.path.exists(_mp):
+        continue
+    _meta = _json.load(open(_mp))
+    if not _meta.get("confirmed"):
+        continue
+    V(f"seed-{_name}", _meta["property"], "violation", patch=f"seeded/{_name}/patch.diff", note="confirmed property-breaking change from a sub-agent: " + (_meta.get("needs_to_manifest") or ""))
